@@ -22,12 +22,55 @@ CLASSES = {"int-status-key-drops-operation": "F16", "yaml-int-status-key": "F16"
 
 
 def case_fn(case: dict, d):
-    root = d / "proj"
-    gen = e2e.generate(case["doc"], root, package="pkg.client", strategy=case["strategy"], fmt=case["fmt"])
-    if not gen["ok"]:
-        return {"gen_ok": False, "gen_error": gen["error"]}
-    pr = e2e.probe(root, "pkg.client", None, ["surface"])
-    return {"gen_ok": True, "probe": pr, "warnings": gen.get("warnings", [])}
+    """The document is generated under every strategy of case["strategies"], in that order, IN ONE PROCESS (a generation must not
+    depend on what the process generated before); the first entry is the case's own strategy."""
+    out = {}
+    for strat in case.get("strategies") or [case["strategy"]]:
+        root = d / f"proj-{strat}"
+        gen = e2e.generate(case["doc"], root, package="pkg.client", strategy=strat, fmt=case["fmt"])
+        if not gen["ok"]:
+            out[strat] = {"gen_ok": False, "gen_error": gen["error"]}
+            continue
+        pr = e2e.probe(root, "pkg.client", None, ["surface"])
+        out[strat] = {"gen_ok": True, "probe": pr, "warnings": gen.get("warnings", [])}
+    first = out[(case.get("strategies") or [case["strategy"]])[0]]
+    return {**first, "by_strategy": out}
+
+
+def doc_to_mpaths(doc: dict) -> list:
+    """The document in the encoding of the Lean `Ops` model (vf.corr.c07)."""
+    mp = []
+    for p, item in (doc.get("paths") or {}).items():
+        mitem = []
+        for k, op in item.items():
+            if not isinstance(op, dict):
+                mitem.append([k, {}])
+                continue
+            mop = {"operationId": op.get("operationId")}
+            if "tags" in op:
+                mop["tags"] = op["tags"]
+            if "responses" in op:
+                mop["responses"] = [{"s": c} if isinstance(c, str) else {"i": c} for c in op["responses"]]
+            mitem.append([k, mop])
+        mp.append([p, mitem])
+    return mp
+
+
+def predicted_names(cases: list[dict]) -> dict:
+    """(case id, strategy) -> sorted list of sorted method-name sets, one per tag client, as the Lean model `clients` derives them
+    (parseOps -> id per strategy -> global de-duplication, twice on the force path -> grouping by tag key)."""
+    from ..corr import c07 as cc
+    from ..lean import DRIVER_BIN
+    reqs, keys = [], []
+    for c in cases:
+        for s in c.get("strategies") or [c["strategy"]]:
+            reqs.append({"f": "clients", "a": [s, True, doc_to_mpaths(c["doc"])]})
+            keys.append((c["id"], s))
+    res = cc._driver_batch(str(DRIVER_BIN), reqs)
+    out = {}
+    for k, m in zip(keys, res):
+        out[k] = sorted(sorted(set(x[1])) for x in m) if isinstance(m, list) else None
+    return out
 
 
 def norm_key(tag: str) -> str:
@@ -77,6 +120,12 @@ def judge(case: dict, res: dict) -> list[tuple[str, str]]:
         for n in meths:
             if not n.isidentifier():
                 fails.append(("method-name", f"{cname}.{n!r} is not an identifier"))
+    pred = case.get("predicted")
+    if pred is not None:
+        got = sorted(sorted(m) for m in per_client.values())
+        if got != pred:
+            fails.append(("method-names-not-by-strategy", f"strategy {case['strategy']}: method names per tag client {got} differ from the names the "
+                          f"selected strategy derives {pred}"))
     return fails
 
 
@@ -105,8 +154,10 @@ def build_cases(ctx) -> list[dict]:
         dup = i % 5 == 4
         o = gs.Opts(mainstream=True, max_ops=6, multi_tags=True, tag_variants=False, dup_opids=dup, always_opid=(i % 3 != 0), streaming=False)
         doc = gs.gen_spec(r, o)
-        fmt = ["json", "yaml", "yaml-flow"][i % 3]
-        cases.append({"id": f"c07-{i}", "doc": doc, "strategy": ["operationId", "clean", "path"][i % 3], "fmt": fmt, "dup_ids": dup, "int_status_keys": False})
+        fmt = ["json", "yaml", "yaml-flow", "yaml-merge"][i % 4]
+        strategies = ["operationId", "clean", "path"]
+        r.shuffle(strategies)
+        cases.append({"id": f"c07-{i}", "doc": doc, "strategy": strategies[0], "strategies": strategies, "fmt": fmt, "dup_ids": dup, "int_status_keys": False})
     # the YAML rendering with unquoted numeric status keys: yaml.safe_dump of int keys
     for i in range(ctx.budget(4, 24)):
         r = rng(f"C07:intkeys:{i}")
@@ -124,10 +175,29 @@ def check(run: Run, ctx) -> None:
         except ModuleNotFoundError:
             run.notes.append(f"{mod} not present yet")
     run.cov["rule"] = (run.cov.get("rule") or "") + ("[e2e] random documents (0-3 tags per operation, absent / duplicated / FastAPI-style operationIds) x {JSON, YAML block, YAML flow, "
-                       "YAML with unquoted integer status keys} x 3 naming strategies -> generated package imported in a fresh interpreter -> coroutine methods per tag "
-                       "client counted against the document's (operation, tag group) pairs; distinct by document hash; non-trivial when >= 2 operations")
-    cases = build_cases(ctx)
-    results = e2e.run_cases("vf.props.C07:case_fn", cases)
+                       "YAML with merge keys (<<: *anchor), YAML with unquoted integer status keys} x the 3 naming strategies generated one after the other in ONE process "
+                       "(random order) -> each generated package imported in a fresh interpreter -> coroutine methods per tag client counted against the document's "
+                       "(operation, tag group) pairs AND the method names per client compared with the names the Lean model `clients` derives for the selected strategy; distinct by document hash; non-trivial when >= 2 operations")
+    cases0 = build_cases(ctx)
+    results0 = e2e.run_cases("vf.props.C07:case_fn", cases0)
+    try:
+        pred = predicted_names(cases0)
+    except Exception as e:  # the driver is unavailable: the name oracle is skipped, the counting oracle still runs
+        run.notes.append(f"method-name prediction skipped: {type(e).__name__}: {e}")
+        pred = {}
+    # one judged case per (document, strategy): the strategies of a document were generated one after the other in one process
+    cases, results = [], []
+    for case, res in zip(cases0, results0):
+        if "infra_error" in res or "by_strategy" not in res:
+            cases.append(case)
+            results.append(res)
+            continue
+        for pos, strat in enumerate(case.get("strategies") or [case["strategy"]]):
+            c2 = {**case, "strategy": strat, "position_in_process": pos}
+            if not case["dup_ids"] and not case["int_status_keys"]:
+                c2["predicted"] = pred.get((case["id"], strat))
+            cases.append(c2)
+            results.append(res["by_strategy"][strat])
     for case, res in zip(cases, results):
         if "infra_error" in res:
             run.infra_errors.append(res["infra_error"])
@@ -148,7 +218,7 @@ def check(run: Run, ctx) -> None:
             if fid and known.listed(fid):
                 known.hit(fid, {"id": case["id"], "class": cls, "msg": msg[:300]})
             elif len(run.violations) < 5:
-                run.violation("input", {k: case[k] for k in ("doc", "strategy", "fmt", "dup_ids", "int_status_keys")}, observed=msg,
+                run.violation("input", {k: case.get(k) for k in ("doc", "strategy", "strategies", "fmt", "dup_ids", "int_status_keys", "predicted")}, observed=msg,
                               expected="one coroutine method per (operation, tag group), every tag client a property of APIClient", what=f"{cls}: {msg[:300]}")
     # F17 (listed for C07 and C20): replay its witness on the real de-duplication pass.  (End to end the force path runs
     # the pass twice, which happens to re-suffix the clash away; the diff path does not.)
@@ -172,4 +242,6 @@ def replay(run: Run, ctx, rec) -> bool:
         return g.replay_generic(rec)
     case = {"id": "replay", **case}
     res = e2e.run_cases("vf.props.C07:case_fn", [case], workers=1)[0]
+    if "by_strategy" in res and case.get("strategy") in res["by_strategy"]:
+        res = res["by_strategy"][case["strategy"]]
     return bool(judge(case, res))
